@@ -7,22 +7,41 @@ ROOT="$(cd "$(dirname "$0")" && pwd)"
 export VERIF_ROOT="$ROOT"
 BIN="$ROOT/.work/bin"
 mkdir -p "$BIN"
+if [ "${1:-}" = replay ] && [ -n "${2:-}" ]; then REPLAY_FILE="$(realpath "$2")"; fi
 cd "$ROOT/harness" || exit 2
 cp /repo/ociregistry/go.sum go.sum 2>/dev/null
+SCHED_IDS=" C16 C08 "
 build() {
   go build -tags verif -o "$BIN/vcheck" ./cmd/vcheck || { echo "harness build failed" >&2; exit 2; }
+}
+# instrumented build: overlay regenerated from /repo's current sources on every run
+build_sched() {
+  go build -o "$BIN/vrewrite" ./cmd/vrewrite || { echo "vrewrite build failed" >&2; exit 2; }
+  "$BIN/vrewrite" -repo /repo/ociregistry -out "$ROOT/.work/overlay" ocimem ociunify ociauth ociclient > "$ROOT/.work/vrewrite.log" || { cat "$ROOT/.work/vrewrite.log" >&2; exit 2; }
+  go build -tags verif -overlay "$ROOT/.work/overlay/overlay.json" -o "$BIN/vcheck-sched" ./cmd/vcheck || { echo "instrumented build failed" >&2; exit 2; }
+}
+build_race() {
+  go build -race -tags verif -overlay "$ROOT/.work/overlay/overlay.json" -o "$BIN/vcheck-race" ./cmd/vcheck || { echo "instrumented -race build failed" >&2; exit 2; }
 }
 case "${1:-}" in
   setup)
     build
-    "$ROOT/harness/sched_build.sh" all || exit 2
+    build_sched
+    build_race
     exit 0;;
   replay)
-    build
-    exec "$BIN/vcheck" replay "$2";;
+    build_sched
+    exec "$BIN/vcheck-sched" replay "$REPLAY_FILE";;
   "")
     echo "usage: check.sh <ID> <tier>" >&2; exit 2;;
   *)
+    case "$SCHED_IDS" in
+      *" $1 "*)
+        build_sched
+        if [ "$1" = C08 ]; then build_race; fi
+        export VERIF_RACE_BIN="$BIN/vcheck-race"
+        exec "$BIN/vcheck-sched" "$1" --tier "${2:-quick}";;
+    esac
     build
     exec "$BIN/vcheck" "$1" --tier "${2:-quick}";;
 esac
